@@ -48,9 +48,9 @@ def _limits():
     resource.setrlimit(resource.RLIMIT_CORE, (0, 0))
 
 
-def run_range(lang, kind, path, start, end, timeout=BATCH_TIMEOUT):
+def run_range(lang, kind, path, start, end, timeout=BATCH_TIMEOUT, limit=None):
     """runs inputs start..end in one child; returns (status, stdout): ok | abort (died) | hang (watchdog or batch timeout)"""
-    cmd = [GV, "front", "--lang", lang, "--tokens", TOKENS, ("--seqs" if kind == "seqs" else "--texts"), path, "--start", str(start), "--end", str(end), "--limit", str(ONE_TIMEOUT)]
+    cmd = [GV, "front", "--lang", lang, "--tokens", TOKENS, ("--seqs" if kind == "seqs" else "--texts"), path, "--start", str(start), "--end", str(end), "--limit", str(limit or ONE_TIMEOUT)]
     try:
         p = subprocess.run(cmd, capture_output=True, text=True, timeout=timeout, errors="replace", preexec_fn=_limits)
     except subprocess.TimeoutExpired as e:
@@ -83,6 +83,18 @@ def supervise(lang, kind, path, n, batch):
             continue
         hs = re.findall(r"^H (\d+)$", out, re.M)
         at = int(hs[-1]) if hs else a
+        if st == "hang":
+            # a loaded machine can make one slow input look like a hang: confirm it alone with six times the limit
+            st1, out1 = run_range(lang, kind, path, at, at + 1, timeout=BATCH_TIMEOUT, limit=ONE_TIMEOUT * 6)
+            if st1 == "ok":
+                m = re.search(r"DONE (\d+) (\d+) (\d+)", out1)
+                counts["ok"] += int(m.group(1)); counts["err"] += int(m.group(2))
+                counts["slow_input_confirmed_not_hanging"] += 1
+                if at + 1 < b:
+                    todo.append((at + 1, b))
+                counts["ok_or_err_before_crash"] += at - a - len(re.findall(r"^R \d+ panic", out, re.M))
+                continue
+            st = st1 if st1 != "ok" else st
         bad.append((at, st, ""))
         counts[st] += 1
         counts["ok_or_err_before_crash"] += at - a - len(re.findall(r"^R \d+ panic", out, re.M))
